@@ -22,10 +22,14 @@ var clockBase = time.Date(2100, 1, 1, 0, 0, 0, 0, time.UTC)
 type fakeClock struct {
 	now      int64
 	readings []int64
+	frozen   bool // diagnostics mode: readings neither advance the clock nor are recorded
 }
 
 func (c *fakeClock) Now() time.Time {
 	r := c.now
+	if c.frozen {
+		return clockBase.Add(time.Duration(r))
+	}
 	c.now++
 	c.readings = append(c.readings, r)
 	return clockBase.Add(time.Duration(r))
@@ -186,7 +190,11 @@ func applyCfg(cfg *circuit.Config, m map[string]string) {
 	}
 }
 
-func newCenv(h map[string]string) *cenv {
+func newCenv(h map[string]string) *cenv { return newCenvWith(h, nil) }
+
+// newCenvWith builds the environment; with a manager the circuit is created through it (so that its default
+// constructors — stat factory, SLO factory — are layered in).
+func newCenvWith(h map[string]string, mgr *circuit.Manager) *cenv {
 	e := &cenv{clk: &fakeClock{}}
 	e.recs = []*recorder{{}, {}}
 	cfg := circuit.Config{}
@@ -233,7 +241,11 @@ func newCenv(h map[string]string) *cenv {
 		e.sc = &scriptedCloser{runRec: runRec{&recorder{}}}
 		cfg.General.OpenToClosedFactory = func() circuit.OpenToClosed { return e.sc }
 	}
-	e.c = circuit.NewCircuitFromConfig("c", cfg)
+	if mgr != nil {
+		e.c = mgr.MustCreateCircuit("c", cfg)
+	} else {
+		e.c = circuit.NewCircuitFromConfig("c", cfg)
+	}
 	e.base = e.c.Config() // merged with the library defaults (factories, time keeper)
 	applyCfg(&e.base, map[string]string{"fo": "0", "fc": "0", "dis": "0", "to": "0", "mc": "10", "ii": "0", "fbd": "0", "fbmc": "10"})
 	applyCfg(&e.base, h)
